@@ -782,10 +782,16 @@ def probes():
              "objects returns a rebuilt Sum under the memoizing mapper")]
 
 
+def extract_substitutor(ctx=None):
+    from extract.substitutor import extract_substitutor as ex
+    return ex(ctx)
+
+
 PROP = Prop(
     id="C08",
     title="Substitution commutes with evaluation",
     lean_targets=["PV.Properties.C08"],
+    extractors=[extract_substitutor],
     theorems=[],
     streams=[SubstStream(), KwStream(), HistStream(), AggStream()],
     probes=[probes],
